@@ -405,6 +405,459 @@ Section Values.
     apply IH; [apply step_inv; assumption|exact Hl2].
   Qed.
 
+
+  (* ---------------- the generic form of [tell_vinv] ----------------
+     The same argument with an arbitrary predicate [G] on the y-scales at which
+     the stored losses were computed; used by Proofs/L1DBracket.v to track the
+     bounding box behind every scale. *)
+  Lemma update_scale_reads (s t : st) x (y : Y num) :
+    bbx s = bbx t -> bby s = bby t -> osy s = osy t ->
+    bby (update_scale s x y) = bby (update_scale t x y) /\
+    sy (update_scale s x y) = sy (update_scale t x y) /\
+    osy (update_scale s x y) = osy (update_scale t x y).
+  Proof.
+    intros E1 E2 E3. unfold L1D.update_scale. rewrite E1, E2, E3.
+    destruct y as [v|vs]; [cbn; tauto|]. destruct (bby t) as [[m1|m1] [m2|m2]]; cbn; tauto.
+  Qed.
+
+  Lemma update_losses_bby (s : st) x r : bby (update_losses s x r) = bby s.
+  Proof.
+    unfold L1D.update_losses.
+    destruct (find_neighbors x (nb s)) as [xl xr]. destruct (find_neighbors x (nbc s)) as [a b].
+    set (s1 := L1D.with_los s (los s) (lpop_opt a b (losc s))).
+    destruct r.
+    - destruct (fold_interp_scalars (get_intervals x (nb s1)) s1) as [_ [S2 _]]. cbn zeta in S2.
+      destruct xl as [l|], xr as [r|]; cbn [negb andb L1D.with_los bby]; rewrite S2; reflexivity.
+    - destruct xl as [l|], xr as [r|]; cbn [negb andb];
+        try destruct (lget (l, r) _); reflexivity.
+  Qed.
+
+  Lemma sweep_bby (s : st) : bby (sweep s) = bby s.
+  Proof.
+    unfold L1D.sweep. set (order := rev _).
+    destruct (fold_interp_scalars order s) as [_ [S2 _]]. exact S2.
+  Qed.
+
+  Lemma tell_values_gen (G : num -> Prop) (s : st) x (y : Y num) :
+    SInv s -> bbx s = (lo P, hi P) -> sx s = sub (hi P) (lo P) -> in_bounds x = true ->
+    dget x (data s) = None ->
+    (forall iv, In iv (keys (los s)) -> exists g, G g /\
+        lget iv (los s) = Some (loss_of (nb s) (data s) (sx s) g (fst iv) (snd iv))) ->
+    let s2 := update_scale s x y in
+    let s' := tell s x y in
+    bby s' = bby s2 /\ sy s' = sy s2 /\ data s' = dset x y (data s) /\
+    (if ltb (mul (factor P) (osy s)) (sy s2)
+     then osy s' = sy s2 /\ forall iv, In iv (keys (los s')) ->
+            lget iv (los s') = Some (loss_of (nb s') (data s') (sx s') (sy s2) (fst iv) (snd iv))
+     else osy s' = osy s /\ forall iv, In iv (keys (los s')) -> exists g, (g = sy s2 \/ G g) /\
+            lget iv (los s') = Some (loss_of (nb s') (data s') (sx s') g (fst iv) (snd iv))).
+  Proof.
+    intros HI Hbox Hsx Hb Hd HG. cbn zeta. unfold L1D.tell. rewrite Hd, Hb. cbn [negb].
+    set (s1 := L1D.mk (data _) (pend _) (insert x (nb _)) (insert x (nbc _)) (los _) (losc _)
+                      (bbx _) (bby _) (sx _) (sy _) (osy _) (mgrx _)).
+    cbn [data pend nb nbc los losc bbx bby sx sy osy mgrx] in s1.
+    destruct (@update_scale_reads s1 s x y eq_refl eq_refl eq_refl) as [R1 [R2 R3]].
+    rewrite <- R1, <- R2.
+    set (s2 := update_scale s1 x y) in *.
+    destruct (update_scale_frame add sub mul div ltb zero inf neg_inf is_nan is_inf round12 s1 x y)
+      as [U1 [U2 [U3 [U4 [U5 U6]]]]]. fold s2 in U1, U2, U3, U4, U5, U6.
+    destruct (@update_scale_box s1 x y Hbox Hb) as [B1 [B2 B3]]. fold s2 in B1, B2, B3.
+    assert (Hxnb : ~ In x (nb s)) by (intros Hin; apply (s_real HI) in Hin; congruence).
+    assert (Hkl : ksorted (los s2)) by (rewrite U5; exact (s_los_sorted HI)).
+    assert (Hkc : ksorted (losc s2)) by (rewrite U6; exact (s_losc_sorted HI)).
+    pose proof (@update_losses_true num add sub mul div ltb eqb zero one inf is_nan is_inf round12 L P OL s2 x Hkl Hkc) as HU.
+    cbn zeta in HU. destruct HU as [V1 [V2 [V3 [V4 [V5 [V6 [V7 V8]]]]]]].
+    pose proof (@update_losses_true_values s2 x Hkl) as HW. cbn zeta in HW.
+    destruct HW as [[W1 [W2 [W3 W4]]] [Wa Wb]].
+    pose proof (update_losses_bby s2 x true) as Wy.
+    assert (Hnb1 : sorted (nb s2)) by (rewrite U3; apply (insert_sorted OL), (s_nb HI)).
+    destruct (find_neighbors_spec OL x Hnb1) as [Hl1 Hr1].
+    set (s3 := update_losses s2 x true) in *.
+    set (xl := fst (find_neighbors x (nb s2))) in *. set (xr := snd (find_neighbors x (nb s2))) in *.
+    rewrite U3 in Hl1, Hr1. cbn [nb s1] in Hl1, Hr1.
+    pose proof (is_left_insert_inv OL _ _ _ Hl1) as Hl0. pose proof (is_right_insert_inv OL _ _ _ Hr1) as Hr0.
+    assert (HV3 : forall iv, In iv (keys (los s3)) -> exists g,
+              (g = sy s2 \/ G g) /\
+              lget iv (los s3) = Some (loss_of (nb s3) (data s3) (sx s3) g (fst iv) (snd iv))).
+    { intros iv Hk. apply V7 in Hk as [Hk Hne].
+      destruct (In_dec_ival OL iv (get_intervals x (nb s2))) as [Hin|Hnin].
+      - exists (sy s2). split; [left; reflexivity|]. rewrite (Wa iv Hne Hin), get_loss_loss_of.
+        rewrite V3, V1, W1. reflexivity.
+      - destruct Hk as [Hk|Hk]; [contradiction|]. rewrite U5 in Hk. cbn [los s1] in Hk.
+        destruct (HG iv Hk) as [g [Hg Hv]]. exists g. split; [right; exact Hg|].
+        rewrite (Wb iv Hne Hnin), U5. cbn [los s1]. rewrite Hv. f_equal.
+        rewrite V3, V1, W1, U3, U1, B2, Hsx. cbn [nb data s1].
+        destruct iv as [a b]; cbn [fst snd].
+        pose proof (proj1 (s_los_keys HI (a, b)) Hk) as Hadj0.
+        symmetry. apply loss_of_frame; [exact (s_nb HI)|exact Hxnb| | | |].
+        + apply (@adj_insert_gen _ _ _ OL (nb s) x _ _ (a, b) (s_nb HI) Hl0 Hr0). left. split; [exact Hadj0|].
+          intros Hok. apply Hne. apply (okey_spec add sub mul div zero is_nan is_inf round12). exact Hok.
+        + intros ->. apply Hxnb. apply Hadj0.
+        + intros ->. apply Hxnb. apply Hadj0.
+        + rewrite U3 in Hnin. exact Hnin. }
+    assert (Ho3 : osy s3 = osy s) by (rewrite W3, B3; reflexivity).
+    assert (Hd3 : data s3 = dset x y (data s)) by (rewrite V1, U1; reflexivity).
+    rewrite Ho3, W2.
+    destruct (ltb (mul (factor P) (osy s)) (sy s2)) eqn:Esw.
+    - destruct (sweep_facts s3) as [Hkeys [N1 [N2 [N3 [N4 N5]]]]].
+      cbn [bby sy data osy los nb sx].
+      rewrite sweep_bby, N4, N2, Wy, W2, Hd3. repeat split.
+      intros iv Hk. apply Hkeys in Hk.
+      rewrite (sweep_resets_all sub mul div zero one is_nan is_inf round12 L P OL s3 iv Hk).
+      rewrite get_loss_loss_of. rewrite N2, N4, W2, Hd3. reflexivity.
+    - split; [exact Wy|]. split; [exact W2|]. split; [exact Hd3|]. split; [exact Ho3|exact HV3].
+  Qed.
+
+
+  (* ---------------- the scale bracket (scalar outputs) ----------------
+     Behind every y-scale at which a stored loss was computed there is a
+     bounding box of the values: it lies between the box of the last full
+     recomputation and the current box.  Pure order reasoning; the numeric
+     reading (osy <= g <= sy) needs monotonicity of [sub] and is drawn in
+     Proofs/L1DBracket.v. *)
+  Definition le (a b : num) : Prop := ltb b a = false.
+
+  Lemma le_refl a : le a a.
+  Proof. unfold le. destruct (ltb a a) eqn:E; [exfalso; exact (lt_irrefl OL E)|reflexivity]. Qed.
+
+  Lemma le_trans a b c : le a b -> le b c -> le a c.
+  Proof.
+    unfold le. intros H1 H2. destruct (ltb c a) eqn:E; [|reflexivity]. exfalso.
+    destruct (trichotomy OL a b) as [H|[H|H]].
+    - assert (Hcb : lt c b) by (eapply (lt_trans OL); eauto). unfold L1DOrder.lt in Hcb. congruence.
+    - subst. congruence.
+    - unfold L1DOrder.lt in H. congruence.
+  Qed.
+
+  Lemma pmin_le_l a b : le (L1D.pmin ltb a b) a.
+  Proof.
+    unfold L1D.pmin, le. destruct (ltb b a) eqn:E; [|apply le_refl].
+    destruct (ltb a b) eqn:E2; [exfalso; exact (lt_asym OL E E2)|reflexivity].
+  Qed.
+  Lemma pmin_le_r a b : le (L1D.pmin ltb a b) b.
+  Proof. unfold L1D.pmin, le. destruct (ltb b a) eqn:E; [apply le_refl|exact E]. Qed.
+  Lemma pmax_ge_l a b : le a (L1D.pmax ltb a b).
+  Proof.
+    unfold L1D.pmax, le. destruct (ltb a b) eqn:E; [|apply le_refl].
+    destruct (ltb b a) eqn:E2; [exfalso; exact (lt_asym OL E E2)|reflexivity].
+  Qed.
+  Lemma pmax_ge_r a b : le b (L1D.pmax ltb a b).
+  Proof. unfold L1D.pmax, le. destruct (ltb a b) eqn:E; [apply le_refl|exact E]. Qed.
+
+  Definition DScal (d : list (num * Y num)) : Prop := forall x y, In (x, y) d -> exists v, y = YS v.
+
+  Lemma dset_In_inv x (y : Y num) d z w : In (z, w) (dset x y d) -> (z, w) = (x, y) \/ In (z, w) d.
+  Proof.
+    induction d as [|[c yc] d IH]; cbn [L1D.dset]; [intros [H|[]]; left; symmetry; exact H|].
+    destruct (ltb x c); [intros [H|H]; [left; symmetry; exact H|right; exact H]|].
+    destruct (eqb x c).
+    - intros [H|H]; [left; symmetry; exact H|right; right; exact H].
+    - intros [H|H]; [right; left; exact H|]. apply IH in H as [H|H]; [left; exact H|right; right; exact H].
+  Qed.
+
+  Lemma dscal_dset x v d : DScal d -> DScal (dset x (YS v) d).
+  Proof.
+    intros HD z w Hin. apply dset_In_inv in Hin as [H|H]; [inversion H; eauto|eapply HD; eauto].
+  Qed.
+
+  Lemma dset_nonempty x (y : Y num) d : dset x y d <> [].
+  Proof. destruct d as [|[c yc] d]; cbn [L1D.dset]; [discriminate|]. destruct (ltb x c); [discriminate|]. destruct (eqb x c); discriminate. Qed.
+
+  Definition Nest (ob : option (num * num)) (m0 m1 : num) : Prop :=
+    match ob with Some (o0, o1) => le m0 o0 /\ le o1 m1 | None => le m0 m1 end.
+
+  (* b0 b1: the current box; ob: the box of the last full recomputation *)
+  Definition BInvAt (s : st) (b0 b1 : num) (ob : option (num * num)) : Prop :=
+    bby s = (YS b0, YS b1) /\
+    DScal (data s) /\
+    (data s = [] \/ sy s = sub b1 b0) /\
+    match ob with Some (o0, o1) => osy s = sub o1 o0 /\ le b0 o0 /\ le o1 b1 | None => osy s = zero end /\
+    ScaleOK s (sy s) /\
+    forall iv, In iv (keys (los s)) -> exists m0 m1,
+      le b0 m0 /\ le m1 b1 /\ Nest ob m0 m1 /\
+      lget iv (los s) = Some (loss_of (nb s) (data s) (sx s) (sub m1 m0) (fst iv) (snd iv)).
+
+  Definition BInv (s : st) : Prop := exists b0 b1 ob, BInvAt s b0 b1 ob.
+
+  Lemma binv_init : BInv (@init num sub zero inf neg_inf P).
+  Proof.
+    exists inf, neg_inf, None. unfold BInvAt. cbn. repeat split; auto.
+    - intros x y [].
+    - left; reflexivity.
+    - intros iv [].
+  Qed.
+
+  Lemma binv_fields (s s' : st) :
+    nb s' = nb s -> data s' = data s -> los s' = los s -> sx s' = sx s -> sy s' = sy s -> osy s' = osy s ->
+    bby s' = bby s -> BInv s -> BInv s'.
+  Proof.
+    intros E1 E2 E3 E4 E5 E6 E7 [b0 [b1 [ob H]]]. exists b0, b1, ob. unfold BInvAt, ScaleOK in *.
+    rewrite E1, E2, E3, E4, E5, E6, E7. exact H.
+  Qed.
+
+  Lemma update_scale_scalar (s : st) x v b0 b1 : bby s = (YS b0, YS b1) ->
+    bby (update_scale s x (YS v)) = (YS (L1D.pmin ltb b0 v), YS (L1D.pmax ltb b1 v)) /\
+    sy (update_scale s x (YS v)) = sub (L1D.pmax ltb b1 v) (L1D.pmin ltb b0 v).
+  Proof. intros H. unfold L1D.update_scale. rewrite H. cbn. split; reflexivity. Qed.
+
+  Lemma tell_binv (s : st) x v : SInv s -> VInv s -> in_bounds x = true -> BInv s -> BInv (tell s x (YS v)).
+  Proof.
+    intros HI HV Hb [b0 [b1 [ob [Hby [Hds [Hsy [Hob [Hsc Hvals]]]]]]]].
+    destruct (dget x (data s)) as [w|] eqn:Hd.
+    { unfold L1D.tell. rewrite Hd. exists b0, b1, ob. repeat split; assumption. }
+    set (G := fun g => exists m0 m1, le b0 m0 /\ le m1 b1 /\ Nest ob m0 m1 /\ g = sub m1 m0).
+    assert (HG : forall iv, In iv (keys (los s)) -> exists g, G g /\
+              lget iv (los s) = Some (loss_of (nb s) (data s) (sx s) g (fst iv) (snd iv))).
+    { intros iv Hk. destruct (Hvals iv Hk) as [m0 [m1 [H1 [H2 [H3 H4]]]]].
+      exists (sub m1 m0). split; [exists m0, m1; auto|exact H4]. }
+    pose proof (@tell_values_gen G s x (YS v) HI (v_box HV) (v_sx HV) Hb Hd HG) as HT. cbn zeta in HT.
+    destruct (@update_scale_scalar s x v b0 b1 Hby) as [Eby Esy].
+    set (c0 := L1D.pmin ltb b0 v) in *. set (c1 := L1D.pmax ltb b1 v) in *.
+    assert (Hc0 : le c0 b0) by apply pmin_le_l. assert (Hc1 : le b1 c1) by apply pmax_ge_l.
+    assert (Hc01 : le c0 c1) by (eapply le_trans; [apply pmin_le_r|apply pmax_ge_r]).
+    destruct HT as [T1 [T2 [T3 T4]]]. rewrite Eby in T1. rewrite Esy in T2, T4.
+    set (s' := tell s x (YS v)) in *.
+    destruct (ltb (mul (factor P) (osy s)) (sub c1 c0)) eqn:Esw.
+    - destruct T4 as [T4 T5]. exists c0, c1, (Some (c0, c1)). unfold BInvAt.
+      split; [exact T1|]. split; [rewrite T3; apply dscal_dset; exact Hds|].
+      split; [right; exact T2|]. split; [split; [exact T4|split; apply le_refl]|].
+      split; [left; rewrite T2, T4; reflexivity|].
+      intros iv Hk. exists c0, c1. split; [apply le_refl|]. split; [apply le_refl|].
+      split; [split; apply le_refl|]. exact (T5 iv Hk).
+    - destruct T4 as [T4 T5]. exists c0, c1, ob. unfold BInvAt.
+      split; [exact T1|]. split; [rewrite T3; apply dscal_dset; exact Hds|].
+      split; [right; exact T2|]. split.
+      { destruct ob as [[o0 o1]|].
+        - destruct Hob as [O1 [O2 O3]]. split; [rewrite T4; exact O1|].
+          split; [exact (le_trans Hc0 O2)|exact (le_trans O3 Hc1)].
+        - rewrite T4. exact Hob. }
+      split; [right; rewrite T2, T4; exact Esw|].
+      intros iv Hk. destruct (T5 iv Hk) as [g [[->|[m0 [m1 [H1 [H2 [H3 ->]]]]]] Hv]].
+      + exists c0, c1. split; [apply le_refl|]. split; [apply le_refl|]. split; [|exact Hv].
+        destruct ob as [[o0 o1]|]; cbn [Nest]; [|exact Hc01].
+        destruct Hob as [_ [O2 O3]]. split; [exact (le_trans Hc0 O2)|exact (le_trans O3 Hc1)].
+      + exists m0, m1. split; [exact (le_trans Hc0 H1)|]. split; [exact (le_trans H2 Hc1)|]. split; [exact H3|exact Hv].
+  Qed.
+
+  Lemma update_losses_sy (s : st) x r : sy (update_losses s x r) = sy s.
+  Proof.
+    unfold L1D.update_losses.
+    destruct (find_neighbors x (nb s)) as [xl xr]. destruct (find_neighbors x (nbc s)) as [a b].
+    set (s1 := L1D.with_los s (los s) (lpop_opt a b (losc s))).
+    destruct r.
+    - destruct (fold_interp_scalars (get_intervals x (nb s1)) s1) as [_ [_ [_ [S4 _]]]]. cbn zeta in S4.
+      destruct xl as [l|], xr as [r|]; cbn [negb andb L1D.with_los sy]; rewrite S4; reflexivity.
+    - destruct xl as [l|], xr as [r|]; cbn [negb andb];
+        try destruct (lget (l, r) _); reflexivity.
+  Qed.
+
+  Lemma tell_pending_binv (s : st) x : BInv s -> BInv (tell_pending s x).
+  Proof.
+    intros HB. unfold L1D.tell_pending. destruct (dget x (data s)); [exact HB|].
+    set (s1 := L1D.mk _ _ _ _ _ _ _ _ _ _ _ _).
+    destruct (update_losses_false_frame add sub mul div ltb eqb zero one inf is_nan is_inf round12 L P s1 x)
+      as [F1 [F2 [F3 [F4 F5]]]].
+    destruct (update_losses_false_scalars s1 x) as [G1 [G2 G3]].
+    eapply binv_fields; [..|exact HB];
+      [rewrite F3|rewrite F1|rewrite F5|rewrite G1|rewrite update_losses_sy|rewrite G2|rewrite update_losses_bby]; reflexivity.
+  Qed.
+
+  Lemma fold_tell_pending_binv pts : forall (s : st), BInv s -> BInv (fold_left tell_pending pts s).
+  Proof.
+    induction pts as [|p pts IH]; intros s HB; cbn [fold_left]; [exact HB|].
+    apply IH, tell_pending_binv, HB.
+  Qed.
+
+
+  (* ---------------- the scale bracket, vector outputs ----------------
+     Same invariant with componentwise boxes; needs that no value is NaN
+     (np.nanmin / np.max treat NaN specially) and that all values have the
+     same length k. *)
+  Notation nanmin := (L1D.nanmin ltb is_nan).
+  Notation nanmax := (L1D.nanmax ltb is_nan).
+  Notation arr_max := (L1D.arr_max ltb zero is_nan).
+  Notation map2 := (@L1D.map2 num).
+
+  Definition lle (l m : list num) : Prop := Forall2 le l m.
+
+  Lemma lle_refl l : lle l l.
+  Proof. induction l; constructor; [apply le_refl|assumption]. Qed.
+
+  Lemma lle_trans l m n : lle l m -> lle m n -> lle l n.
+  Proof.
+    intros H; revert n; induction H as [|a b l m Hab Hlm IH]; intros n Hn; inversion Hn; subst; constructor.
+    - eapply le_trans; eauto.
+    - apply IH; assumption.
+  Qed.
+
+  Lemma lle_length l m : lle l m -> length l = length m.
+  Proof. induction 1; cbn; congruence. Qed.
+
+  Lemma map2_length (f : num -> num -> num) a : forall b, length a = length b -> length (map2 f a b) = length a.
+  Proof. induction a as [|x a IH]; intros [|y b] H; cbn in *; try congruence. f_equal. apply IH. congruence. Qed.
+
+  Section NoNaN.
+    Hypothesis NoNaN : forall x, is_nan x = false.
+
+    Lemma nanmin_pmin a b : nanmin a b = L1D.pmin ltb a b.
+    Proof. unfold L1D.nanmin, L1D.pmin. rewrite !NoNaN. reflexivity. Qed.
+    Lemma nanmax_pmax a b : nanmax a b = L1D.pmax ltb a b.
+    Proof. unfold L1D.nanmax, L1D.pmax. rewrite !NoNaN. reflexivity. Qed.
+
+    Lemma map2_nanmin_le a : forall b, length a = length b ->
+      lle (map2 nanmin a b) a /\ lle (map2 nanmin a b) b.
+    Proof.
+      induction a as [|x a IH]; intros [|y b] H; cbn in *; try congruence; [split; constructor|].
+      destruct (IH b) as [H1 H2]; [congruence|]. rewrite nanmin_pmin.
+      split; constructor; auto using pmin_le_l, pmin_le_r.
+    Qed.
+
+    Lemma map2_nanmax_ge a : forall b, length a = length b ->
+      lle a (map2 nanmax a b) /\ lle b (map2 nanmax a b).
+    Proof.
+      induction a as [|x a IH]; intros [|y b] H; cbn in *; try congruence; [split; constructor|].
+      destruct (IH b) as [H1 H2]; [congruence|]. rewrite nanmax_pmax.
+      split; constructor; auto using pmax_ge_l, pmax_ge_r.
+    Qed.
+  End NoNaN.
+
+  Definition DVec (k : nat) (d : list (num * Y num)) : Prop :=
+    forall x y, In (x, y) d -> exists vs, y = YV vs /\ length vs = k.
+
+  Lemma dvec_dset k x vs d : length vs = k -> DVec k d -> DVec k (dset x (YV vs) d).
+  Proof.
+    intros Hk HD z w Hin. apply dset_In_inv in Hin as [H|H]; [inversion H; eauto|eapply HD; eauto].
+  Qed.
+
+  Definition scv (mn mx : list num) : num := arr_max (map2 sub mx mn).
+
+  Definition NestV (ob : option (list num * list num)) (m0 m1 : list num) : Prop :=
+    match ob with Some (o0, o1) => lle m0 o0 /\ lle o1 m1 | None => lle m0 m1 end.
+
+  Definition BInvVAt (k : nat) (s : st) (b0 b1 : list num) (ob : option (list num * list num)) : Prop :=
+    bby s = (YV b0, YV b1) /\ length b0 = k /\ length b1 = k /\
+    sy s = scv b0 b1 /\
+    match ob with Some (o0, o1) => osy s = scv o0 o1 /\ lle b0 o0 /\ lle o1 b1 | None => osy s = zero end /\
+    forall iv, In iv (keys (los s)) -> exists m0 m1,
+      lle b0 m0 /\ lle m1 b1 /\ NestV ob m0 m1 /\
+      lget iv (los s) = Some (loss_of (nb s) (data s) (sx s) (scv m0 m1) (fst iv) (snd iv)).
+
+  Definition BInvV (k : nat) (s : st) : Prop :=
+    DVec k (data s) /\ ScaleOK s (sy s) /\
+    ((data s = [] /\ (forall a b, bby s <> (YV a, YV b)) /\ osy s = zero) \/
+     exists b0 b1 ob, BInvVAt k s b0 b1 ob).
+
+  Lemma binvv_init k : BInvV k (@init num sub zero inf neg_inf P).
+  Proof.
+    split; [intros x y []|]. split; [left; reflexivity|]. left. cbn. repeat split; intros; discriminate.
+  Qed.
+
+  Lemma binvv_fields k (s s' : st) :
+    nb s' = nb s -> data s' = data s -> los s' = los s -> sx s' = sx s -> sy s' = sy s -> osy s' = osy s ->
+    bby s' = bby s -> BInvV k s -> BInvV k s'.
+  Proof.
+    intros E1 E2 E3 E4 E5 E6 E7 H. unfold BInvV, BInvVAt, ScaleOK in *.
+    rewrite E1, E2, E3, E4, E5, E6, E7. exact H.
+  Qed.
+
+  Lemma update_scale_vector (s : st) x vs b0 b1 : bby s = (YV b0, YV b1) ->
+    bby (update_scale s x (YV vs)) = (YV (map2 nanmin b0 vs), YV (map2 nanmax b1 vs)) /\
+    sy (update_scale s x (YV vs)) = scv (map2 nanmin b0 vs) (map2 nanmax b1 vs).
+  Proof. intros H. unfold L1D.update_scale. rewrite H. cbn. split; reflexivity. Qed.
+
+  Lemma update_scale_first_vector (s : st) x vs : (forall a b, bby s <> (YV a, YV b)) ->
+    bby (update_scale s x (YV vs)) = (YV vs, YV vs) /\ sy (update_scale s x (YV vs)) = scv vs vs.
+  Proof.
+    intros H. unfold L1D.update_scale. destruct (bby s) as [[m1|m1] [m2|m2]] eqn:E; cbn; try (split; reflexivity).
+    exfalso. exact (H _ _ eq_refl).
+  Qed.
+
+  Lemma no_keys_of_no_data (s : st) : SInv s -> data s = [] -> forall iv, ~ In iv (keys (los s)).
+  Proof.
+    intros HI Hd [a b] Hk. apply (s_los_keys HI) in Hk. destruct Hk as [Ha _]. cbn [fst] in Ha.
+    apply (s_real HI) in Ha. rewrite Hd in Ha. apply Ha. reflexivity.
+  Qed.
+
+  Lemma tell_binvv k (s : st) x vs : (forall z, is_nan z = false) -> length vs = k ->
+    SInv s -> VInv s -> in_bounds x = true -> BInvV k s -> BInvV k (tell s x (YV vs)).
+  Proof.
+    intros NoNaN Hk HI HV Hb HB.
+    destruct (dget x (data s)) as [w|] eqn:Hd.
+    { unfold L1D.tell. rewrite Hd. exact HB. }
+    destruct HB as [Hds [Hsc [[Hemp [Hnv Ho]]|[b0 [b1 [ob [Hby [Hl0 [Hl1 [Hsy [Hob Hvals]]]]]]]]]]].
+    - (* the first value *)
+      set (G := fun _ : num => False).
+      assert (HG : forall iv, In iv (keys (los s)) -> exists g, G g /\
+                lget iv (los s) = Some (loss_of (nb s) (data s) (sx s) g (fst iv) (snd iv))).
+      { intros iv Hk'. exfalso. exact (@no_keys_of_no_data s HI Hemp iv Hk'). }
+      pose proof (@tell_values_gen G s x (YV vs) HI (v_box HV) (v_sx HV) Hb Hd HG) as HT. cbn zeta in HT.
+      destruct (@update_scale_first_vector s x vs Hnv) as [Eby Esy].
+      destruct HT as [T1 [T2 [T3 T4]]]. rewrite Eby in T1. rewrite Esy in T2, T4.
+      set (s' := tell s x (YV vs)) in *.
+      split; [rewrite T3; apply dvec_dset; assumption|].
+      destruct (ltb (mul (factor P) (osy s)) (scv vs vs)) eqn:Esw; destruct T4 as [T4 T5].
+      + split; [left; rewrite T2, T4; reflexivity|]. right. exists vs, vs, (Some (vs, vs)). unfold BInvVAt.
+        split; [exact T1|]. split; [exact Hk|]. split; [exact Hk|]. split; [exact T2|].
+        split; [split; [exact T4|split; apply lle_refl]|].
+        intros iv Hk'. exists vs, vs. split; [apply lle_refl|]. split; [apply lle_refl|].
+        split; [split; apply lle_refl|exact (T5 iv Hk')].
+      + split; [right; rewrite T2, T4; exact Esw|]. right. exists vs, vs, None. unfold BInvVAt.
+        split; [exact T1|]. split; [exact Hk|]. split; [exact Hk|]. split; [exact T2|].
+        split; [rewrite T4; exact Ho|].
+        intros iv Hk'. destruct (T5 iv Hk') as [g [[->|[]] Hv]].
+        exists vs, vs. split; [apply lle_refl|]. split; [apply lle_refl|]. split; [apply lle_refl|exact Hv].
+    - set (G := fun g => exists m0 m1, lle b0 m0 /\ lle m1 b1 /\ NestV ob m0 m1 /\ g = scv m0 m1).
+      assert (HG : forall iv, In iv (keys (los s)) -> exists g, G g /\
+                lget iv (los s) = Some (loss_of (nb s) (data s) (sx s) g (fst iv) (snd iv))).
+      { intros iv Hk'. destruct (Hvals iv Hk') as [m0 [m1 [H1 [H2 [H3 H4]]]]].
+        exists (scv m0 m1). split; [exists m0, m1; auto|exact H4]. }
+      pose proof (@tell_values_gen G s x (YV vs) HI (v_box HV) (v_sx HV) Hb Hd HG) as HT. cbn zeta in HT.
+      destruct (@update_scale_vector s x vs b0 b1 Hby) as [Eby Esy].
+      assert (Hlen0 : length b0 = length vs) by congruence. assert (Hlen1 : length b1 = length vs) by congruence.
+      destruct (map2_nanmin_le NoNaN b0 vs Hlen0) as [Hc0 Hc0v]. destruct (map2_nanmax_ge NoNaN b1 vs Hlen1) as [Hc1 Hc1v].
+      set (c0 := map2 nanmin b0 vs) in *. set (c1 := map2 nanmax b1 vs) in *.
+      assert (Hc01 : lle c0 c1) by (eapply lle_trans; eauto).
+      assert (Hk0 : length c0 = k) by (unfold c0; rewrite map2_length; congruence).
+      assert (Hk1 : length c1 = k) by (unfold c1; rewrite map2_length; congruence).
+      destruct HT as [T1 [T2 [T3 T4]]]. rewrite Eby in T1. rewrite Esy in T2, T4.
+      set (s' := tell s x (YV vs)) in *.
+      split; [rewrite T3; apply dvec_dset; assumption|].
+      destruct (ltb (mul (factor P) (osy s)) (scv c0 c1)) eqn:Esw; destruct T4 as [T4 T5].
+      + split; [left; rewrite T2, T4; reflexivity|]. right. exists c0, c1, (Some (c0, c1)). unfold BInvVAt.
+        split; [exact T1|]. split; [exact Hk0|]. split; [exact Hk1|]. split; [exact T2|].
+        split; [split; [exact T4|split; apply lle_refl]|].
+        intros iv Hk'. exists c0, c1. split; [apply lle_refl|]. split; [apply lle_refl|].
+        split; [split; apply lle_refl|exact (T5 iv Hk')].
+      + split; [right; rewrite T2, T4; exact Esw|]. right. exists c0, c1, ob. unfold BInvVAt.
+        split; [exact T1|]. split; [exact Hk0|]. split; [exact Hk1|]. split; [exact T2|]. split.
+        { destruct ob as [[o0 o1]|].
+          - destruct Hob as [O1 [O2 O3]]. split; [rewrite T4; exact O1|].
+            split; [exact (lle_trans Hc0 O2)|exact (lle_trans O3 Hc1)].
+          - rewrite T4. exact Hob. }
+        intros iv Hk'. destruct (T5 iv Hk') as [g [[->|[m0 [m1 [H1 [H2 [H3 ->]]]]]] Hv]].
+        * exists c0, c1. split; [apply lle_refl|]. split; [apply lle_refl|]. split; [|exact Hv].
+          destruct ob as [[o0 o1]|]; cbn [NestV]; [|exact Hc01].
+          destruct Hob as [_ [O2 O3]]. split; [exact (lle_trans Hc0 O2)|exact (lle_trans O3 Hc1)].
+        * exists m0, m1. split; [exact (lle_trans Hc0 H1)|]. split; [exact (lle_trans H2 Hc1)|]. split; [exact H3|exact Hv].
+  Qed.
+
+  Lemma tell_pending_binvv k (s : st) x : BInvV k s -> BInvV k (tell_pending s x).
+  Proof.
+    intros HB. unfold L1D.tell_pending. destruct (dget x (data s)); [exact HB|].
+    set (s1 := L1D.mk _ _ _ _ _ _ _ _ _ _ _ _).
+    destruct (update_losses_false_frame add sub mul div ltb eqb zero one inf is_nan is_inf round12 L P s1 x)
+      as [F1 [F2 [F3 [F4 F5]]]].
+    destruct (update_losses_false_scalars s1 x) as [G1 [G2 G3]].
+    eapply binvv_fields; [..|exact HB];
+      [rewrite F3|rewrite F1|rewrite F5|rewrite G1|rewrite update_losses_sy|rewrite G2|rewrite update_losses_bby]; reflexivity.
+  Qed.
+
+  Lemma fold_tell_pending_binvv k pts : forall (s : st), BInvV k s -> BInvV k (fold_left tell_pending pts s).
+  Proof.
+    induction pts as [|p pts IH]; intros s HB; cbn [fold_left]; [exact HB|].
+    apply IH, tell_pending_binvv, HB.
+  Qed.
+
   (* ---------------- the reported loss ---------------- *)
   Notation loss := (@loss num sub div ltb eqb inf is_nan is_inf round12 P).
   Notation missing_bounds := (@missing_bounds num eqb P).
